@@ -579,6 +579,8 @@ class PART(Command):
                 if self.shx.debug:
                     raise ParseSyntaxError(debug=True)
             self.n = 0
+        # An explicit 'PART n 11' is a site occupation factor like any other:
+        self.sof_given = len(p) > 1
         if len(p) > 1:
             self.sof = float(p[1])
 
